@@ -1,6 +1,7 @@
 import Infretis.Model.Proto
 import Infretis.Model.Config
 import Infretis.Model.WF
+import Infretis.Model.ConfigInit
 open Infretis Infretis.Proto Infretis.Config
 
 /-
@@ -144,10 +145,123 @@ def handleCv (toks : List String) : String :=
     | _, _ => "bad-op"
   | [] => "bad-op"
 
+def showInitErr : InitErr → String
+  | .cfg e => showErr e
+  | .wf .assert => "err:assert"
+  | .wf .index => "err:index"
+  | .wf .value => "err:value"
+  | .assert => "err:assert"
+  | .index => "err:index"
+
+def takeIntLists : Nat → List String → Option (List (List Int) × List String)
+  | 0, rest => some ([], rest)
+  | k + 1, rest =>
+    match takeList parseInt? rest with
+    | none => none
+    | some (l, rest) =>
+      match takeIntLists k rest with
+      | none => none
+      | some (ls, rest) => some (l :: ls, rest)
+
+def showInitState (s : InitState) : String :=
+  s!"ok cap={match s.cap with | none => "-" | some x => toString x} " ++
+  s!"intf={showList toString s.interfaces} moves={showList (fun b => if b then "1" else "0") s.moves} " ++
+  s!"W={showList (fun r => showList toString r) s.matrix}"
+
+/-- `load <k> <order values of path 0> … <of path k-1> <cfg>` — `setup_config` then `setup_internal`
+    (model `Infretis.Config.startUp`): the W matrix of the state after `load_paths` and the first md_items;
+    `internal …` — `setup_internal` alone on the configuration as given (`Infretis.Config.setupInternal`) -/
+def handleLoad (whole : Bool) (toks : List String) : String :=
+  match toks with
+  | k :: rest =>
+    match parseNat? k with
+    | none => "bad-op"
+    | some k =>
+      match takeIntLists k rest with
+      | none => "bad-op"
+      | some (paths, rest) =>
+        match parseCfg rest with
+        | none => "bad-op"
+        | some c =>
+          match (if whole then startUp c paths else setupInternal c paths) with
+          | .ok s => showInitState s
+          | .error e => showInitErr e
+  | [] => "bad-op"
+
+def takeSections : Nat → List String → Option (List (String × Nat) × List String)
+  | 0, rest => some ([], rest)
+  | k + 1, name :: code :: rest =>
+    match unhexStr name, parseNat? code, takeSections k rest with
+    | some n, some c, some (l, rest) => some ((n, c) :: l, rest)
+    | _, _, _ => none
+  | _ + 1, _ => none
+
+/-- `<file> := - | F <nsec> (<hex name> <code>)* <pattern 0|1> <current : - | C cstep rf steps present> <ntok> <cfg tokens>` -/
+def takeFile (toks : List String) : Option (Option TomlFile × List String) :=
+  match toks with
+  | "-" :: rest => some (none, rest)
+  | "F" :: n :: rest =>
+    match parseNat? n with
+    | none => none
+    | some n =>
+      match takeSections n rest with
+      | none => none
+      | some (secs, pat :: rest) =>
+        match parseBool? pat with
+        | none => none
+        | some pat =>
+          let cur : Option (Option Restart × List String) :=
+            match rest with
+            | "-" :: rest => some (none, rest)
+            | "C" :: cs :: rf :: st :: pp :: rest =>
+              (match parseInt? cs, optTok parseInt? rf, parseInt? st, parseBool? pp with
+               | some cs, some rf, some st, some pp =>
+                 some (some { cstep := cs, restartedFrom := rf, steps := st, pathsPresent := pp }, rest)
+               | _, _, _, _ => none)
+            | _ => none
+          match cur with
+          | some (cur, k :: rest) =>
+            match parseNat? k with
+            | none => none
+            | some k =>
+              if rest.length < k then none else
+              match parseCfg (rest.take k) with
+              | none => none
+              | some c => some (some { sections := secs, cfg := c, pattern := pat, current := cur }, rest.drop k)
+          | _ => none
+      | some (_, []) => none
+  | _ => none
+
+def showCurrent (c : Current) : String :=
+  s!"{c.trajNum},{c.cstep},{c.size},{showList toString c.active}"
+
+def showSetupOut : Except Err (Option SetupOut) → String
+  | .error e => showErr e
+  | .ok none => "none"
+  | .ok (some o) =>
+    s!"ok {showNorm o.cfg} fresh={match o.fresh with | none => "-" | some c => showCurrent c} " ++
+    s!"rf={match o.restartedFrom with | none => "-" | some x => toString x} " ++
+    s!"header={if o.wroteHeader then 1 else 0} pattern={if o.patternFile then 1 else 0}"
+
+/-- `files <samePath 0|1> <inp file> <re file>` — `setup_config(inp, re_inp)` (model `setupConfigFiles`) -/
+def handleFiles (toks : List String) : String :=
+  match toks with
+  | sp :: rest =>
+    match parseBool? sp, takeFile rest with
+    | some sp, some (inp, rest) =>
+      match takeFile rest with
+      | some (re, []) => showSetupOut (setupConfigFiles inp sp re)
+      | _ => "bad-op"
+    | _, _ => "bad-op"
+  | [] => "bad-op"
+
 def handle (toks : List String) : String :=
   match toks with
   | "restart" :: rest => handleRestart rest
+  | "files" :: rest => handleFiles rest
   | "cv" :: rest => handleCv rest
+  | "load" :: rest => handleLoad true rest
+  | "internal" :: rest => handleLoad false rest
   | op :: rest =>
     match parseCfg rest with
     | none => "bad-op"
@@ -159,6 +273,14 @@ def handle (toks : List String) : String :=
         (match setupConfig c with
          | .ok c' => showInit (initEnsembles c')
          | .error e => showErr e)
+      else if op = "occ" then
+        -- setup_config, then the engine occupation lists of create_engines
+        (match setupConfig c with
+         | .error e => showErr e
+         | .ok c' =>
+           match engineOcc c' with
+           | .error e => showErr e
+           | .ok occ => "ok " ++ showList (fun kn => hexStr kn.1 ++ " " ++ toString kn.2) occ)
       else if op = "all" then
         -- check on the raw dict, setup_config, and the property predicate on the normalised dict
         let v := if validB (normalise c) then "1" else "0"
